@@ -245,7 +245,7 @@ impl Sut for V {
                         out.results.push(r);
                         i += 1;
                     }
-                    ROp::Read { .. } | ROp::ReadAll { .. } | ROp::ReadExact { .. } => {
+                    ROp::Read { .. } | ROp::ReadAll { .. } | ROp::ReadExact { .. } | ROp::ReadAllDigest { .. } => {
                         out.results.push(RRes::NoFile);
                         i += 1;
                     }
@@ -268,6 +268,31 @@ impl Sut for V {
                                                 }
                                                 Err(e) => out.results.push(RRes::Err(es(e))),
                                             }
+                                            i += 1;
+                                        }
+                                        ROp::ReadAllDigest { n } => {
+                                            use sha2::Digest;
+                                            let mut h = sha2::Sha256::new();
+                                            let mut len = 0u64;
+                                            let mut buf = vec![0u8; (*n).max(1)];
+                                            let mut err = None;
+                                            loop {
+                                                match f.data.read(&mut buf) {
+                                                    Ok(0) => break,
+                                                    Ok(k) => {
+                                                        h.update(&buf[..k]);
+                                                        len += k as u64;
+                                                    }
+                                                    Err(e) => {
+                                                        err = Some(es(e));
+                                                        break;
+                                                    }
+                                                }
+                                            }
+                                            out.results.push(match err {
+                                                None => RRes::Digest { len, sha: h.finalize().into() },
+                                                Some(e) => RRes::Err(e),
+                                            });
                                             i += 1;
                                         }
                                         ROp::ReadExact { total, n } => {
@@ -332,6 +357,10 @@ impl Sut for V {
                 RRes::NoFile => crate::seams::log_num("nofile", 0, 0),
                 RRes::Bytes(b) => crate::seams::log_obs("bytes", b),
                 RRes::Hash(h) => crate::seams::log_obs("hash", h),
+                RRes::Digest { len, sha } => {
+                    crate::seams::log_num("digest-len", *len, 0);
+                    crate::seams::log_obs("digest", sha);
+                }
                 RRes::Err(_) => crate::seams::log_num("err", 0, 0),
             }
         }
